@@ -97,7 +97,7 @@ func FinishVoid(fns ...func()) {
 // ForEach maps all elements from given generate but no output.
 func ForEach[T any](generate GenerateFunc[T], mapper ForEachFunc[T], opts ...Option) {
 	options := buildOptions(opts...)
-	panicChan := &onceChan{channel: make(chan any)}
+	panicChan := newOnceChan()
 	source := buildSource(generate, panicChan)
 	collector := make(chan any)
 	done := make(chan struct{})
@@ -120,6 +120,10 @@ func ForEach[T any](generate GenerateFunc[T], mapper ForEachFunc[T], opts ...Opt
 			panic(v)
 		case _, ok := <-collector:
 			if !ok {
+				// a panic written just before the collector closed must not be lost
+				if v, ok := panicChan.read(); ok {
+					panic(v)
+				}
 				return
 			}
 		}
@@ -130,7 +134,7 @@ func ForEach[T any](generate GenerateFunc[T], mapper ForEachFunc[T], opts ...Opt
 // and reduces the output elements with given reducer.
 func MapReduce[T, U, V any](generate GenerateFunc[T], mapper MapperFunc[T, U], reducer ReducerFunc[U, V],
 	opts ...Option) (V, error) {
-	panicChan := &onceChan{channel: make(chan any)}
+	panicChan := newOnceChan()
 	source := buildSource(generate, panicChan)
 	return mapReduceWithPanicChan(source, panicChan, mapper, reducer, opts...)
 }
@@ -138,7 +142,7 @@ func MapReduce[T, U, V any](generate GenerateFunc[T], mapper MapperFunc[T, U], r
 // MapReduceChan maps all elements from source, and reduce the output elements with given reducer.
 func MapReduceChan[T, U, V any](source <-chan T, mapper MapperFunc[T, U], reducer ReducerFunc[U, V],
 	opts ...Option) (V, error) {
-	panicChan := &onceChan{channel: make(chan any)}
+	panicChan := newOnceChan()
 	return mapReduceWithPanicChan(source, panicChan, mapper, reducer, opts...)
 }
 
@@ -318,6 +322,11 @@ func mapReduceWithPanicChan[T, U, V any](source <-chan T, panicChan *onceChan, m
 		drain(output)
 		panic(v)
 	case v, ok := <-output:
+		// a panic written just before the output closed must not be lost
+		if pv, ok := panicChan.read(); ok {
+			drain(output)
+			panic(pv)
+		}
 		if e := retErr.Load(); e != nil {
 			err = e
 		} else if ok {
@@ -372,6 +381,22 @@ func (gw guardedWriter[T]) Write(v T) {
 type onceChan struct {
 	channel chan any
 	wrote   int32
+}
+
+// newOnceChan returns an onceChan with room for its single value, so that write never blocks,
+// even if nobody reads the value, e.g. the caller already returned on cancel or timeout.
+func newOnceChan() *onceChan {
+	return &onceChan{channel: make(chan any, 1)}
+}
+
+// read returns the written value, if any, without blocking.
+func (oc *onceChan) read() (any, bool) {
+	select {
+	case v := <-oc.channel:
+		return v, true
+	default:
+		return nil, false
+	}
 }
 
 func (oc *onceChan) write(val any) {
